@@ -41,6 +41,24 @@ CHECKS = {
    text="Equivalence is equality of the complete public projection plus the XML export digest; independence is the frame condition evaluated after every call on the other copy; invalid accesses at destroy are observed by ASan in the recorder (Crash event, which the specification rejects).",
    design_ref="DESIGN.md section 6, C12",
    note="Trusted: TLC, projection code. 'Shares no mutable storage' is decided observationally (the other copy never moves, no sanitizer event), not by pointer analysis; leak detection is not yet wired."),
+ "C04": dict(
+   technique="TLC-checked TLA+ specification of the three bitmap text formats (printers, documented-grammar parsers, snprintf/sscanf relations: spec/BitmapStr.tla, MC_BitmapStr.tla); model histories are replayed on the ASan-built library with guard bytes and the recorded traces are validated by TLC (spec/TraceBitmapStr.tla)",
+   category="model_checking",
+   text="The property relations are checked exhaustively on structured value families (every buffer length 0..needed+1, NULL/0, asprintf agreement, round trips, documented grammar variants) and every enumerated history is validated against the real code; hostile strings are sampled from the seed and judged by the weak contract plus print-then-parse stability. Bounded: values, widths and strings are finite families.",
+   design_ref="DESIGN.md section 6, C04",
+   note="Trusted: TLC, the recorder's projection through hwloc_bitmap_first/next/next_unset, ASan for out-of-bounds reads. Indexes below 640 in the models; ENOMEM not explored; exact canonical text is SPEC-DRIFT only unless HWV_C04_STRICT=1 (membership in the documented output language and denoting the right set are decisive)."),
+ "C05": dict(
+   technique="TLA+ relations for XML documents (spec/XmlDoc.tla: Equivalent over the full projection incl. distances, memattrs, cpukinds, support bits, strings modulo documented non-exportable characters; SameTreeAndSets for v2; byte-identical re-export; userdata delivery lists) checked by TLC on traces of the rebuilt library (TXmlExport/TXmlImport in spec/TraceTopo.tla) for TLC-simulated modification histories of the C02 model and every bundled input, through the {buffer,file} x {buffer,file} x {v3,v2} x {userdata} matrix under the libxml/nolibxml backend pairs",
+   category="model_checking",
+   text="Equivalence is equality of the complete public projection (objects, sets, attributes, infos, stores) between the exported topology and the reloaded one, the fixpoint is digest equality of the exported bytes, userdata is compared as the exact list of deliveries; histories come from the TLC model of modifying calls, so annotated/restricted/grouped topologies with distances, memattrs and cpukinds are covered, not only pristine loads.",
+   design_ref="DESIGN.md section 6, C05",
+   note="Trusted: TLC, projection code, FNV digest of the bytes. The XML text itself is not parsed by the specification. Support bits are exported only when the importer requests them (IMPORT_SUPPORT), as in the repository's own tests. One known finding (NUMA complete_cpuset with offline PUs)."),
+ "C16": dict(
+   technique="TLC exhaustively enumerates edit sets and hand-built diff lists over a bounded abstract topology (spec/Diff.tla, MC_Diff.tla), checks the diff relations on the model, and every emitted scenario is replayed on the rebuilt library with both XML backends and validated by TLC against the same relations (spec/TraceDiff.tla)",
+   category="model_checking",
+   text="The property's relations (build iff-cases, apply result, exact rollback, reverse restore, XML round trip with refname) are checked against real executions for every scenario of the bounded model (<= 3 edits, <= 3 entries) plus simulated longer ones; exhaustive within those bounds and sampled beyond.",
+   design_ref="DESIGN.md section 6, C16",
+   note="Trusted: projection in hwv_diff.c (public API only), TLC, Json module. Topologies are synthetic; distances/memattrs/cpukinds inequality paths and allocation failures are not explored."),
 }
 NA_REASON = {}
 
